@@ -193,6 +193,15 @@ func residueAll(c *enum.Ctx) {
 			}
 		}
 	}
+	// the size ladder of the run count: 2^k-1, 2^k, 2^k+1 run files (15..513) at chunk size 1, one and two cycles
+	for _, n := range enum.Ladder(15, 513) {
+		for _, conc := range []bool{false, true} {
+			for _, ac := range []bool{false, true} {
+				cases = append(cases, resCase{"residue", 1, ac, !ac, conc, []int{n}, []int{n + 1}, true})
+				cases = append(cases, resCase{"residue", 1, ac, false, conc, []int{n, 3}, []int{n + 1, 4}, n%2 == 0})
+			}
+		}
+	}
 	var spills atomic.Int64
 	enum.Parallel(16, func(sh int) {
 		parent := filepath.Join(work, fmt.Sprintf("residue-%d", sh))
